@@ -7,7 +7,7 @@ from streamlib import *
 import pipelib as PL
 import gen_json as G
 
-DEVS = ["DevLimiterNoComplete", "DevPopOldest", "DevTruncAll", "DevSwallowBreak"]
+DEVS = ["DevLimiterNoComplete", "DevPopOldest", "DevTruncAll", "DevSwallowBreak", "DevSplitLast"]
 
 
 def pipe_cfg(tag, family, maxrows, invariants=(), props=(), dev=None, live=False, replay=False):
@@ -100,13 +100,15 @@ def build_record(rc, obs):
              "base": list(bytes.fromhex(obs[1]["out"])), "bres": obs[1]["res"], "sep": rc.get("sep", [10]), "json": rc.get("json", True)}
         if rc["rel"] == "concat":
             r["base2"] = list(bytes.fromhex(obs[2]["out"]))
-            if obs[2]["res"] != "ok":
-                r["bres"] = obs[2]["res"]
+            r["hdr"] = list(bytes.fromhex(obs[3]["out"])) if len(obs) > 3 else []
+            for x in obs[2:]:
+                if x["res"] != "ok":
+                    r["bres"] = x["res"]
         return r
     if k == "stop":
         o = obs[0]
         return {"kind": "stop", "cfg": PL.strip_private(rc["cfg"]), "input": rc["input"], "ends": rc["ends"], "slack": rc["slack"],
-                "out": list(bytes.fromhex(o["out"])), "sep": [10], "res": o["res"], "capped": bool(o.get("capped")), "pulled": o.get("pulled", 0)}
+                "exact": "fifo" not in rc["runs"][0], "out": list(bytes.fromhex(o["out"])), "sep": [10], "res": o["res"], "capped": bool(o.get("capped")), "pulled": o.get("pulled", 0)}
     raise ValueError(k)
 
 
@@ -154,6 +156,9 @@ def run_and_validate(chk, jvh, cs, tag, nproc):
             chk.violation("%s%s: %s  argv=%s stdin=%r" % (rc["kind"], "/" + rc["rel"] if "rel" in rc else "", what, first["argv"], stdin[:200]), rep)
         elif kind == "DRIFT":
             chk.drift.append({"argv": first["argv"], "what": what})
+        elif kind == "SKIP":
+            chk.notes["skipped_outside_quantifier"] = chk.notes.get("skipped_outside_quantifier", 0) + 1
+            chk.traces -= 1
         else:
             raise ToolError("%s flag from Trace_Pipe on recipe %d (argv %s, stdin %r): %s" % (kind, case, first["argv"], stdin[:300], what))
     return per, recs
